@@ -71,6 +71,20 @@ Definition chk_area (k : N) (d : list N) (exp : res area_st) : bool :=
 Definition chk_multi (d : list N) (exp : res mr_st) : bool :=
   res_eqb mr_st_eqb (multi_obj d) exp.
 
+(* Ipmi.get_fru_inventory(fru_id) against a device holding [img]: the four areas it returns
+   must be those of the stateless parse of the image the device holds at that moment *)
+Definition dev_eqb (a b : area_st * area_st * area_st * mr_st) : bool :=
+  let '(a1, a2, a3, a4) := a in let '(b1, b2, b3, b4) := b in
+  area_st_eqb a1 b1 && area_st_eqb a2 b2 && area_st_eqb a3 b3 && mr_st_eqb a4 b4.
+Definition dev_view (r : res (option inventory)) : res (area_st * area_st * area_st * mr_st) :=
+  match r with
+  | Ok (Some i) => Ok (i_chassis i, i_board i, i_product i, i_multi i)
+  | Ok None => Err (OtherError OtherExc)
+  | Err e => Err e
+  end.
+Definition chk_dev (img : list N) (exp : res (area_st * area_st * area_st * mr_st)) : bool :=
+  res_eqb dev_eqb (dev_view (parse_inventory img)) exp.
+
 (* the harness's Python encoder (written from the same format description) and the Coq
    encoder produce the same image for inventory s, s is inside the theorems' domain,
    and the model parses that image to exactly the attribute values of s *)
